@@ -110,6 +110,9 @@ func (e *Env) Logf(format string, a ...interface{}) {
 func (e *Env) HarnessError(format string, a ...interface{}) {
 	fmt.Fprintf(os.Stderr, "HARNESS-ERROR property=%s %s\n", e.PropID, fmt.Sprintf(format, a...))
 	e.Cleanup()
+	if fresh, _ := e.NumViolations(); fresh > 0 {
+		os.Exit(1) // violations were already confirmed and printed; the later harness trouble does not unsay them
+	}
 	os.Exit(3)
 }
 
